@@ -62,15 +62,15 @@ EXTRA = {
            "header block (every byte value in name/value, obs-fold, header_map modes; independent oracle) and chunk-size line (~1100 lines) are decision tables evaluated by the analyser's "
            "abstract interpreter from the function entry on enumerated inputs and compared with specification-side oracles",
     "C02": "write table on wire bytes over the response life (write; write; close with the Response methods entered and every socket write traced in order; Content-Length / chunked / neither x head sent or not), sendfile count table, start_response state table and response_length reachability evaluated from the entry; emitted head bytes evaluated for a concrete Response from the state __init__ leaves; force_close() -> start_response life-cycle (once forced, should_close() stays true); an error reply is reachable only while no head is on the wire (evaluated), and is followed by a close",
-    "C03": "reap_workers evaluated per exit code 0..255 (halt exactly for the two boot-failure codes) incl. the reexec_pid reset; 'reap until no child' stated over CFG edges; child exit status evaluated per exception class x booted; handle_chld evaluated with a tracked worker / a pending re-exec child: every delivery reaps or is deferred to the running pass (flag protocol on the CFG); manage_workers always compares the pool with the target unless a dirty flag raised by every mutator says nothing changed",
+    "C03": "kill_worker evaluated from the clause an OSError of os.kill lands in, per errno x {pid tracked, pid already reaped} (ESRCH forgets the worker and closes its heartbeat file, a missing key is not an error, other errnos propagate); reap_workers evaluated per exit code 0..255 (halt exactly for the two boot-failure codes) incl. the reexec_pid reset; 'reap until no child' stated over CFG edges; child exit status evaluated per exception class x booted; handle_chld evaluated with a tracked worker / a pending re-exec child: every delivery reaps or is deferred to the running pass (flag protocol on the CFG); manage_workers always compares the pool with the target unless a dirty flag raised by every mutator says nothing changed",
     "C04": "TERM / INT / QUIT handlers evaluated (every outcome raises StopIteration; stop(False) exactly for INT/QUIT); signals sent by stop() evaluated; kill sites found as loops over WORKERS; gevent drain loop found through its deadline local",
     "C05": "accept() error clauses of the sync and threaded worker evaluated per errno (EAGAIN / EWOULDBLOCK / ECONNABORTED swallowed, siblings agree on the rest); handle_error evaluated per exception class (status, reason, message; request object type); write_error reply evaluated byte for byte; dispatched request followed through copies of next(parser)",
-    "C06": "short-buffer evaluation: from the head of the governing read loop, no buffer shorter than the compared constant lets control leave the loop without a read",
+    "C06": "short-buffer evaluation: from the head of the governing read loop, no buffer shorter than the compared constant lets control leave the loop without a read; after a read that completed the delimiter early in a long buffer no `raise Limit*` is reached (a cap only judges buffers that still lack the delimiter: D20)",
     "C07": "trailers parsed exactly after a zero-size chunk (evaluated on chunk-size lines); one parser per connection",
     "C08": "header-block trust table (forwarded_allow_ips x peer x secure-scheme headers, duplicates, conflicts) from the evaluated header table; PROXY info carried across the requests of one connection, "
            "evaluated on a three-request history with heap objects (handler loop / one call per request)",
     "C09": "bytes handed to util.write evaluated for a concrete Response; start_response state table",
-    "C12": "limits part of the evaluated header-block table (field count, field size incl. continuation lines and CRLF, 0 = unlimited)",
+    "C12": "limits part of the evaluated header-block table (field count, field size incl. continuation lines and CRLF, 0 = unlimited); clamp table with boundary samples; caps evaluated on a buffer that already holds the delimiter (never fire)",
     "C13": "blocking-mode typestate of a connection socket (TConn.init evaluated for fresh / TLS / kept-alive connections; non-blocking before the poller); keep-alive reaper table (deadline - now) evaluated; deadline sites found by effect",
     "C10": "reload order incl. 'raw_env exports undone before app.reload() snapshots the environment'; every arbiter field derived from the configuration is (re)assigned in setup()",
     "C14": "reexec evaluated: fork iff reexec_pid == 0 and master_pid == 0; the environment handed to exec for both hand-off modes with concrete pids / listener fds, "
@@ -81,7 +81,7 @@ EXTRA = {
     "C17": "Pidfile life-cycle create(pid) -> unlink() evaluated on one symbolic object (a file holding the master's own pid is always removed); create() outcome table with a symbolic probed pid; the descriptor written to comes from mkstemp only",
     "C11": "every notify() touches the heartbeat file (must-pass); timeout scan tolerates OSError and ValueError of a closed heartbeat file (evaluated); every polling loop of a worker beats",
     "C18": "'worker no longer alive => response forced to close' evaluated from the entry with `alive` snapshots",
-    "C20": "heartbeat-file chown decision evaluated over master uid/gid x configured uid/gid, cold and in every two-spawn history with module-level state carried over (a memo must be keyed by the ids); the environment handed to a re-exec'ed master evaluated; identity system calls not under a swallowing except",
+    "C20": "set_owner_process evaluated over configured (uid, gid, initgroups) x current (uid, gid): the ordered list of identity system calls; heartbeat-file chown decision evaluated over master uid/gid x configured uid/gid, cold and in every two-spawn history with module-level state carried over (a memo must be keyed by the ids); the environment handed to a re-exec'ed master evaluated; identity system calls not under a swallowing except",
 }
 
 
@@ -129,7 +129,7 @@ def main():
         "checks": checks,
         "not_applicable": [],
         "notes": "All 20 properties are claimed at clause level (level 'other'): each check decides necessary structural conditions of the property and lists the behavioural remainder it does NOT decide "
-                 "in level_claimed.text and in evidence coverage.explanation. Genuine defects found: D1-D7, D9, D11-D19 repaired by one 'fix:' commit each in /repo; D8 and D10 recorded in known_findings.json. "
+                 "in level_claimed.text and in evidence coverage.explanation. Genuine defects found: D1-D7, D9, D11-D20 repaired by one 'fix:' commit each in /repo; D8 and D10 recorded in known_findings.json. "
                  "Exit codes: 0 held / only known findings, 1 VIOLATION, 2 ANALYSIS-ERROR (fail closed).",
     }
     with open(os.path.join(HERE, "MANIFEST.json"), "w") as f:
